@@ -302,6 +302,9 @@ Section LErrors.
   Theorem linker_errors_only_handed_down sel o em cf t s : solve_t sel (set_errors o em cf) t s = solve_t sel o t s.
   Proof.
     unfold Linker.linker_solve_t_M. change (max_iter (set_errors o em cf)) with (max_iter o).
-    change (min_iter (set_errors o em cf)) with (min_iter o). rewrite body_errors_only_handed_down. reflexivity.
+    change (min_iter (set_errors o em cf)) with (min_iter o).
+    change (linker_seed num zero (sel_ids num sel s) (set_errors o em cf) t s) with (linker_seed num zero (sel_ids num sel s) o t s).
+    destruct (max_iter o <? min_iter o); [reflexivity|]. destruct (linker_infeasible _ _ t); [reflexivity|].
+    destruct (linker_seed num zero (sel_ids num sel s) o t s) as [s0 [e|]]; [reflexivity|apply body_errors_only_handed_down].
   Qed.
 End LErrors.
